@@ -19,6 +19,7 @@ if TYPE_CHECKING:
     from numpy.typing import ArrayLike
 
     from ropt.plan import Plan
+    from ropt.results import Results
     from ropt.transforms import OptModelTransforms
 
 
@@ -105,6 +106,8 @@ class DefaultEvaluatorStep(PlanStep):
                 source=self.id,
             )
         )
+        # The evaluation may be aborted, in which case there are no results:
+        results: tuple[Results, ...] = ()
         try:
             results = ensemble_evaluator.calculate(
                 variables, compute_functions=True, compute_gradients=False
@@ -112,32 +115,32 @@ class DefaultEvaluatorStep(PlanStep):
         except OptimizationAborted as exc:
             exit_code = exc.exit_code
 
-        assert results
-        assert isinstance(results[0], FunctionResults)
-        if results[0].functions is None:
-            exit_code = OptimizerExitCode.TOO_FEW_REALIZATIONS
+        if results:
+            assert isinstance(results[0], FunctionResults)
+            if results[0].functions is None:
+                exit_code = OptimizerExitCode.TOO_FEW_REALIZATIONS
 
-        if metadata is not None:
-            for item in results:
-                item.metadata = deepcopy(metadata)
+            if metadata is not None:
+                for item in results:
+                    item.metadata = deepcopy(metadata)
 
-        data: dict[str, Any] = {}
-        if transforms is not None:
-            data["transformed_results"] = results
-            data["results"] = [
-                item.transform_from_optimizer(transforms) for item in results
-            ]
-        else:
-            data["results"] = results
+            data: dict[str, Any] = {}
+            if transforms is not None:
+                data["transformed_results"] = results
+                data["results"] = [
+                    item.transform_from_optimizer(transforms) for item in results
+                ]
+            else:
+                data["results"] = results
 
-        self.emit_event(
-            Event(
-                event_type=EventType.FINISHED_EVALUATION,
-                config=config,
-                source=self.id,
-                data=data,
+            self.emit_event(
+                Event(
+                    event_type=EventType.FINISHED_EVALUATION,
+                    config=config,
+                    source=self.id,
+                    data=data,
+                )
             )
-        )
 
         if exit_code == OptimizerExitCode.USER_ABORT:
             self.plan.abort()
